@@ -296,6 +296,25 @@ func (s *Store[H]) DeleteRange(ctx context.Context, from, to uint64) error {
 		_, err := s.getByHeight(ctx, to)
 		if errors.Is(err, header.ErrNotFound) {
 			// No header at 'to', safe to wipe the entire store
+			// but delete the headers themselves first, so they don't stay readable
+			// and can't be walked over by Head/Tail advancing after later appends
+			actualTo, _, deleteErr := s.deleteRangeRaw(ctx, from, to)
+			if deleteErr != nil {
+				// save the progress, s.t. a retry continues from where we left off
+				if err := s.setTail(ctx, s.ds, actualTo); err != nil {
+					deleteErr = errors.Join(
+						deleteErr,
+						fmt.Errorf("header/store: setting tail to %d: %w", actualTo, err),
+					)
+				}
+				return fmt.Errorf(
+					"header/store: delete range [%d:%d) (actual: %d): %w",
+					from,
+					to,
+					actualTo,
+					deleteErr,
+				)
+			}
 			if err := s.wipe(ctx); err != nil {
 				return fmt.Errorf("header/store: wipe: %w", err)
 			}
